@@ -62,7 +62,7 @@ func (m *meta) SendImportant(to any, message any) error {
 }
 
 func (m *meta) SendWithPriority(to any, message any, priority gen.MessagePriority) error {
-	if err := m.p.SendWithPriority(to, message, priority); err != nil {
+	if err := m.p.sendAs(to, message, priority); err != nil {
 		return err
 	}
 	atomic.AddUint64(&m.messagesOut, 1)
